@@ -583,6 +583,17 @@ pub fn gen_body(r: &mut Rng, seed: u64, keys: &mut Vec<KeySpec>) -> BodySpec {
             }
         }
         l.readme = gen::text(r);
+        if r.chance(1, 4) {
+            // keys in the table that were built from raw key bytes (no keyid_hash_algorithms) or are
+            // declared with an unimplemented scheme; they sign nothing here
+            let extra = match r.below(3) {
+                0 => KeySpec { kind: KeyKind::EcdsaBare, seed: r.next() >> 16 },
+                1 => KeySpec { kind: KeyKind::Ed, seed: r.next() >> 16 },
+                _ => KeySpec { kind: KeyKind::RsaUnknown, seed: 0 },
+            };
+            keys.push(extra);
+            l.key_table.push(keys.len() - 1);
+        }
         if r.chance(1, 3) {
             // expiry dates where calendars like to disagree
             l.expires = r.pick(&[
@@ -687,7 +698,7 @@ pub fn run_c04(tier: Tier, seed: u64, index: u64, rec: &mut RunRecord) {
         // (the key's own scheme would only give the same key another id — its signature verifies)
         let own = match t.keys[k].kind {
             KeyKind::Ed | KeyKind::EdPk8 => "ed25519",
-            KeyKind::Ecdsa => "ecdsa-sha2-nistp256",
+            KeyKind::Ecdsa | KeyKind::EcdsaBare => "ecdsa-sha2-nistp256",
             KeyKind::Rsa2048S256 | KeyKind::Rsa4096S256 => "rsassa-pss-sha256",
             KeyKind::Rsa2048S512 | KeyKind::Rsa4096S512 => "rsassa-pss-sha512",
             KeyKind::RsaUnknown => "rsassa-pss-sha384",
@@ -806,7 +817,7 @@ pub fn run_c09(tier: Tier, seed: u64, index: u64, rec: &mut RunRecord) {
     for (i, sidx) in t.signers.clone().iter().enumerate() {
         let own = match t.keys[*sidx].kind {
             KeyKind::Ed | KeyKind::EdPk8 => "ed25519",
-            KeyKind::Ecdsa => "ecdsa-sha2-nistp256",
+            KeyKind::Ecdsa | KeyKind::EcdsaBare => "ecdsa-sha2-nistp256",
             KeyKind::Rsa2048S256 | KeyKind::Rsa4096S256 => "rsassa-pss-sha256",
             KeyKind::Rsa2048S512 | KeyKind::Rsa4096S512 => "rsassa-pss-sha512",
             KeyKind::RsaUnknown => "rsassa-pss-sha384",
